@@ -781,7 +781,7 @@ def run(tier, replay=None):
         chk.exhaustive = True
         # ---------------- direction B
         rng = random.Random(common.SEED * 7919 + 19)
-        nsess = 25 if tier == "quick" else 400
+        nsess = 25 if tier == "quick" else 1000
         sessions = []
         for k in range(nsess):
             sessions.append(gen_dump_session(L, rng, tmp, k))
